@@ -67,7 +67,13 @@ def gen_case(rng, tier):
                     ops.append(["set_quadratic", u, v, b])
                 elif r < 0.86:
                     ops.append(["offset", b])
-                elif r < 0.93 and kind == 'view_write':
+                elif r < 0.90 and kind == 'view_write' and len(labels) > 1:
+                    # removing a variable through the view (named, or popping the last one)
+                    # (popping through a view of an object-dtype BQM raises TypeError: open finding C04-d6)
+                    ops.append(["remove", rng.choice(labels) if c["dtype"] == 'obj' else rng.choice([None, None, rng.choice(labels)])])
+                    labels = list(labels)
+                    labels.remove(ops[-1][1]) if ops[-1][1] is not None else labels.pop()
+                elif r < 0.95 and kind == 'view_write':
                     k = rng.randint(1, len(labels))
                     ops.append(["add_eq", [[l, str(rng.randint(-3, 3) * 2)] for l in rng.sample(labels, k)],
                                 str(rng.choice([2, 4])), str(rng.randint(-2, 2) * 2)])
@@ -267,6 +273,16 @@ def run_case(c):
                 elif name == "set_quadratic":
                     view.set_quadratic(dec_label(op[1]), dec_label(op[2]), float(F(op[3])))
                     o = f"(VSetQuad {cnat(T.idx(op[1]))} {cnat(T.idx(op[2]))} {cq(F(op[3]))})"
+                elif name == "remove":
+                    last = list(bqm.variables)[-1]
+                    target_v = last if op[1] is None else dec_label(op[1])
+                    if op[1] is None:
+                        got = view.remove_variable()
+                        if got != last:
+                            return {"py_fail": f"view.remove_variable() returned {got!r}, the last variable is {last!r}", "features": feats}
+                    else:
+                        view.remove_variable(target_v)
+                    o = f"(VRemove {cnat(T.idx(target_v))})"
                 elif name == "add_eq":
                     view.add_linear_equality_constraint([(dec_label(l), float(F(b))) for l, b in op[1]],
                                                         float(F(op[2])), float(F(op[3])))
@@ -341,6 +357,12 @@ def run_case(c):
             cqm.set_objective(qm)
         else:
             labs.append(cqm.add_constraint_from_model(qm, ['<=', '>=', '=='][i % 3], rhs=float(i)))
+
+    # a constraint marked discrete over binary variables (change_vartype must convert it like any other)
+    bins = [dec_label(v[0]) for v in allvars if v[1] == 'BINARY']
+    if len(bins) >= 2 and (len(c["exprs"]) + len(bins)) % 2 == 0:
+        labs.append(cqm.add_discrete(bins, label="disc"))
+        feats["discrete"] = True
 
     def exprs(m):
         return [m.objective] + [m.constraints[l].lhs for l in labs]
